@@ -284,8 +284,21 @@ class FunctorPool:
         return self
 
     def __exit__(self, exc_type=None, exc_val=None, exc_tb=None):
-        for _ in range(len(self.procs)):
-            self._work_queue.put(None)
+        if self.join_timeout is None:
+            for p in self.procs:
+                # A stop order is not addressed to a particular worker and a worker that has already finished (it reached
+                # its chunk quota and was not replaced) will never read one, so a blocking put of one stop order per worker
+                # could wait forever on a full queue. Thus a stop order is offered whenever there is a free slot in the
+                # queue, until the worker is gone.
+                while p.exitcode is None:
+                    try:
+                        self._work_queue.put(None, block=False)
+                    except queue.Full:
+                        pass  # stop orders (or work) are waiting in the queue already
+                    p.join(timeout=0.1)
+        else:
+            for _ in range(len(self.procs)):
+                self._work_queue.put(None)
         for p in self.procs:
             if p.exitcode is None:
                 p.join(timeout=self.join_timeout)
